@@ -358,12 +358,20 @@ inline bool parse_replay(const std::string& text, std::string& prop, std::vector
 inline void on_cpu_budget(int) { const char m[] = "\nVF-CPU-BUDGET\n"; if (crumb().p) memcpy(crumb().p + crumb().cap - 32, "CPU-BUDGET", 11); (void)!write(2, m, sizeof m - 1); _exit(97); }
 inline void arm_cpu_budget(unsigned seconds) { struct itimerval it {}; it.it_value.tv_sec = seconds; setitimer(ITIMER_VIRTUAL, &it, nullptr); }
 
+inline bool name_selected(const std::string& only, const std::string& skipPrefix, const char* name) {
+	std::string n = name;
+	if (!skipPrefix.empty() && n.rfind(skipPrefix, 0) == 0) return false;
+	if (only.empty()) return true;
+	if (only.back() == '*') return n.rfind(only.substr(0, only.size() - 1), 0) == 0;
+	return n == only;
+}
+
 inline int engine_main(int argc, char** argv, const char* unitName) {
-	uint64_t seed = 1; uint64_t cases = 1000; std::string out, only, replay, crumbPath; unsigned shard = 0, shards = 1; unsigned cpuBudget = 20; bool list = false, doShrink = false, thorough = false, noSweeps = false, onlySweeps = false; unsigned maxSize = 100; std::string regen;
+	uint64_t seed = 1; uint64_t cases = 1000; std::string out, only, skipPrefix, replay, crumbPath; unsigned shard = 0, shards = 1; unsigned cpuBudget = 20; bool list = false, doShrink = false, thorough = false, noSweeps = false, onlySweeps = false; unsigned maxSize = 100; std::string regen;
 	for (int i = 1; i < argc; i++) {
 		std::string a = argv[i]; auto val = [&]() { return std::string(i + 1 < argc ? argv[++i] : ""); };
 		if (a == "--seed") seed = strtoull(val().c_str(), nullptr, 10); else if (a == "--cases") cases = strtoull(val().c_str(), nullptr, 10);
-		else if (a == "--out") out = val(); else if (a == "--prop") only = val(); else if (a == "--replay") replay = val(); else if (a == "--crumb") crumbPath = val();
+		else if (a == "--out") out = val(); else if (a == "--prop") only = val(); else if (a == "--skip-prefix") skipPrefix = val(); else if (a == "--replay") replay = val(); else if (a == "--crumb") crumbPath = val();
 		else if (a == "--shard") { std::string v = val(); sscanf(v.c_str(), "%u/%u", &shard, &shards); }
 		else if (a == "--cpu") cpuBudget = static_cast<unsigned>(atoi(val().c_str())); else if (a == "--max-size") maxSize = static_cast<unsigned>(atoi(val().c_str()));
 		else if (a == "--kf") { std::string v = val(); size_t p = 0; while (p < v.size()) { size_t q = v.find(',', p); if (q == std::string::npos) q = v.size(); if (q > p) active_kf().insert(v.substr(p, q - p)); p = q + 1; } }
@@ -422,7 +430,7 @@ inline int engine_main(int argc, char** argv, const char* unitName) {
 
 	std::map<std::string, PropStats> stats; unsigned totalWeight = 0;
 	for (auto& sw : sweep_registry()) {
-		if (!only.empty() && only != sw.name) continue;
+		if (!name_selected(only, skipPrefix, sw.name)) continue;
 		if (sw.thoroughOnly && !thorough) continue;
 		if (noSweeps) continue;
 		SweepCtx& sc = sweep_stats()[sw.name]; sc.shard = shard; sc.shards = shards; sc.thorough = thorough;
@@ -430,9 +438,9 @@ inline int engine_main(int argc, char** argv, const char* unitName) {
 		sw.fn(sc);
 		if (!out.empty()) write_stats(out, unitName, stats, seed, false);
 	}
-	for (auto& p : registry()) if (only.empty() || only == p.name) totalWeight += p.weight;
+	for (auto& p : registry()) if (name_selected(only, skipPrefix, p.name)) totalWeight += p.weight;
 	for (auto& p : registry()) {
-		if (!only.empty() && only != p.name) continue;
+		if (!name_selected(only, skipPrefix, p.name)) continue;
 		if (onlySweeps) continue;
 		PropStats& st = stats[p.name];
 		uint64_t n = std::max<uint64_t>(1, cases * p.weight / std::max(1u, totalWeight));
